@@ -503,16 +503,16 @@ def _observe_call(op, s):
             v, m = X.evaluator(s, FULL_V, _full_f(), FULL_S, max_array_dim=2)
             return ('val', repr(v)) + _meta(m)
         if op == 'evalarr':
-            v, m = X.evaluator(s, ARR_V(), FULL_F, FULL_S, max_array_dim=2)       # x, y vectors: [x, y] is a matrix
+            v, m = X.evaluator(s, ARR_V(), _full_f(), FULL_S, max_array_dim=2)       # x, y vectors: [x, y] is a matrix
             return ('val', repr(v)) + _meta(m)
         if op == 'evaldim1':
-            v, m = X.evaluator(s, FULL_V, FULL_F, FULL_S, max_array_dim=1)        # scalars, vectors allowed, matrices not
+            v, m = X.evaluator(s, FULL_V, _full_f(), FULL_S, max_array_dim=1)        # scalars, vectors allowed, matrices not
             return ('val', repr(v)) + _meta(m)
         if op == 'evalinf':
-            v, m = X.evaluator(s, FULL_V, FULL_F, FULL_S, allow_inf=True)
+            v, m = X.evaluator(s, FULL_V, _full_f(), FULL_S, allow_inf=True)
             return ('val', repr(v)) + _meta(m)
         if op == 'evalnosuffix':
-            v, m = X.evaluator(s, FULL_V, FULL_F, {})        # same names in scope, but no suffixes defined
+            v, m = X.evaluator(s, FULL_V, _full_f(), {})        # same names in scope, but no suffixes defined
             return ('val', repr(v)) + _meta(m)
         if op == 'evalmiss':
             v, m = X.evaluator(s, MISS_V, {}, {})
